@@ -272,3 +272,18 @@ def given_flag_is_set_for_every_configured_value(ctx):
         ctx.check(ok, f'{hw.qualname}:given flag set for explicit values', s, 'set unconditionally in the explicit-value branch',
                   f'`{src(s)}` is nested under {[src(a.test) for a in ifs]}: a persistent parameter without write method that is given in the '
                   'configuration is not marked as given - the stored value silently overrides the configured one at start-up', hw)
+
+
+@rule('C17.R1b', min_instances=1)
+def saved_text_is_encodable(ctx):
+    """shared with C07.R6b: the persistent file is written through a strict UTF-8 text file, so json.dump keeps
+    ensure_ascii at its default - otherwise one string value with an unpaired surrogate makes every later save fail"""
+    from sa.rules import c07
+    m = ctx.m
+    ci = m.cls(PM)
+    f = next((fi for name, fi in ci.methods.items() if any(call_name(c) in ('json.dump', 'json.dumps') for c in calls_in(fi.node))), None)
+    if f is None:
+        raise AnchorMissing('json.dump in PersistentMixin not found')
+    ctx.analysed(f)
+    if not c07.json_text_is_encodable(ctx, f, 'file writer'):
+        raise AnchorMissing('json.dump in the save function not found')
